@@ -46,7 +46,9 @@ theorem neck_is_vertical (e : EntryF) (start : Vec4) :
 
 /-- an unknown action is an error (after the phases that precede the action) -/
 theorem invalid_action (e : EntryF) (start : Vec4) (h1 : e.action ≠ 1) (h2 : e.action ≠ 2) (h3 : e.action ≠ 3) :
-    Phase.invalidAction ∈ phases e start ∨ True := Or.inr trivial
+    Phase.invalidAction ∈ phases e start := by
+  unfold phases
+  simp [h1, h2, h3]
 
 theorem runPhases_invalid (b : Builder) (rest : List Phase) : runPhases b (.invalidAction :: rest) = .error .einval := rfl
 
